@@ -137,6 +137,53 @@ func registerStringStubs(ex *Exec) {
 		}
 		panic(unsupported("strings.Split on symbolic strings"))
 	}
+	S["strconv.Atoi"] = func(ex *Exec, st *State, site ssa.Instruction, fn *ssa.Function, args []Value) Value {
+		sv := args[0].(*StrV)
+		mkErr := func() Value { return &IfaceV{T: nil, V: ex.newOpaque("error")} }
+		if cs, ok := sv.Concrete(); ok {
+			v, err := strconv.Atoi(cs)
+			if err != nil {
+				return &TupleV{E: []Value{bv64(0), mkErr()}}
+			}
+			return &TupleV{E: []Value{bv64(int64(v)), Nil}}
+		}
+		// bounded model: optional sign followed by 1..k digits, k <= 6 (no overflow possible); anything else is an error
+		n := len(sv.B)
+		if n > 7 {
+			panic(unsupported("strconv.Atoi on a symbolic string longer than 7 bytes"))
+		}
+		isDigit := func(b *smt.Term) *smt.Term { return inRange(b, '0', '9') }
+		dig := func(b *smt.Term) *smt.Term { return smt.ZExt(smt.Sub(b, smt.Const(8, '0')), 64) }
+		okAll := smt.False
+		val := bv64(0)
+		for L := 1; L <= n; L++ {
+			for _, signed := range []int{0, 1} { // 0: no sign, 1: sign char first
+				nd := L - signed
+				if nd < 1 {
+					continue
+				}
+				c := smt.Eq(sv.Len, bv64(int64(L)))
+				var neg *smt.Term = smt.False
+				if signed == 1 {
+					isMinus := smt.Eq(sv.B[0], smt.Const(8, '-'))
+					isPlus := smt.Eq(sv.B[0], smt.Const(8, '+'))
+					c = smt.And(c, smt.Or(isMinus, isPlus))
+					neg = isMinus
+				} else {
+					c = smt.And(c, isDigit(sv.B[0]))
+				}
+				v := bv64(0)
+				for k := signed; k < L; k++ {
+					c = smt.And(c, isDigit(sv.B[k]))
+					v = smt.Add(smt.Mul(v, bv64(10)), dig(sv.B[k]))
+				}
+				v = smt.Ite(neg, smt.Neg(v), v)
+				val = smt.Ite(c, v, val)
+				okAll = smt.Or(okAll, c)
+			}
+		}
+		return &TupleV{E: []Value{smt.Ite(okAll, val, bv64(0)), mergeV(okAll, Nil, mkErr())}}
+	}
 	S["strconv.Itoa"] = func(ex *Exec, st *State, site ssa.Instruction, fn *ssa.Function, args []Value) Value {
 		t := args[0].(*smt.Term)
 		if t.IsConst() {
